@@ -13,7 +13,7 @@ namespace Pyrtma.Mgr
 /-- the per-round event lists the driver computes for the model — each round is run on the state with the log emptied —
     are the model's observation: what each round appends to the cumulative log of `run` (`step_reset`: the model never
     reads its log); its final state is that of `run`, up to the log -/
-theorem modelRun_obs (cfg : Cfg) (rs : List Round) :
+theorem modelRun_obsM (cfg : Cfg) (rs : List Round) :
     (Pyrtma.Drv.Manager.modelRun cfg rs).1 = modelObs cfg rs ∧
     ∃ o, (Pyrtma.Drv.Manager.modelRun cfg rs).2 = setOut (run cfg rs) o := by
   have key : ∀ (rs : List Round) (acc : List (List Ev)) (sC : State) (o0 : List Ev), ∃ o',
@@ -50,7 +50,7 @@ theorem spec_passes_on_model {cfg : Cfg} (ok : CfgOK cfg) (hfuel : cfg.fuel = 0)
     (hmt : cfg.mtClosed ≠ cfg.allTypes) (rs : List Round)
     (hwf : RoundsWF rs) (p : String) (hp : p ∈ proven) (hinc : p = "C05" → IncRounds 0 rs) :
     (Spec.runSpec cfg rs (Pyrtma.Drv.Manager.modelRun cfg rs).1 none).errs.filter (·.1 == p) = [] := by
-  rw [(modelRun_obs cfg rs).1]
+  rw [(modelRun_obsM cfg rs).1]
   exact (Spec.noErr_iff_filter p _).mp (model_meets_spec_proven ok hfuel hperm hmt rs hwf p hp hinc)
 
 /-- the driver's verdict line for such a property is `ok` -/
